@@ -52,10 +52,11 @@ func (s *spyAdapter) SetActor(a actor.Actor) {
 
 func (s *spyAdapter) rec(pid, act string, chips int64, fn func() error) error {
 	var err error
+	at := h.Mono() // when the runner issued the call (the engine may publish the next state before the call returns)
 	if !s.noForward && fn != nil {
 		err = fn()
 	}
-	c := spyCall{Actor: s.name, PID: pid, Act: act, Chips: chips, Mono: h.Mono(), During: atomic.LoadInt64(&s.delivery)}
+	c := spyCall{Actor: s.name, PID: pid, Act: act, Chips: chips, Mono: at, During: atomic.LoadInt64(&s.delivery)}
 	if err != nil {
 		c.Err = err.Error()
 	}
